@@ -88,6 +88,10 @@ CALLS['io.FCSData[:, list]'] = (lambda s, a: s[:, [s.channels[2], 0]], False, Fa
 CALLS['io.FCSData[:, slice]'] = (lambda s, a: s[:, 1:3], False, True)
 CALLS['io.FCSData[:, :]'] = (lambda s, a: s[:, :], False, True)
 CALLS['io.FCSData[rows, list]'] = (lambda s, a: s[1:7, [1, 2]], False, False)
+CALLS['io.read_fcs_data_segment(list ranges)'] = (lambda s, a: FlowCal.io.read_fcs_data_segment(a['seg_path'], 5, 13, 'I', 3, a['seg_widths'], False, a['seg_ranges']), True, False)
+CALLS['io.read_fcs_data_segment(array ranges)'] = (lambda s, a: FlowCal.io.read_fcs_data_segment(a['seg_path'], 5, 13, 'I', 3, a['seg_widths'], True, a['seg_ranges_arr']), True, False)
+CALLS['io.read_fcs_data_segment(no ranges)'] = (lambda s, a: FlowCal.io.read_fcs_data_segment(a['seg_path'], 5, 13, 'I', 3, a['seg_widths'], False), True, False)
+CALLS['io.read_fcs_text_segment'] = (lambda s, a: FlowCal.io.read_fcs_text_segment(open(a['seg_path'], 'rb'), 14, 26)[0], True, False)
 CALLS['transform.to_rfi(all)'] = (lambda s, a: FlowCal.transform.to_rfi(s), False, False)
 CALLS['transform.to_rfi(some,overrides)'] = (lambda s, a: FlowCal.transform.to_rfi(s, a['chs'], a['at'], a['ag'], a['res']), False, False)
 CALLS['transform.to_mef'] = (lambda s, a: FlowCal.transform.to_mef(s, a['chs'], a['sc_list'], a['chs']), False, False)
@@ -169,6 +173,12 @@ for _xs in ('linear', 'log'):
 CALLS['plot.density_and_hist'] = (_plot(lambda s, a: FlowCal.plot.density_and_hist(s + 1, gated_data=(s + 1)[2:], density_channels=a['chs2'], hist_channels=a['chs'], density_params=a['dparams'], hist_params=a['hparams'])), True, False)
 
 
+def _segment_file():
+    # a DATA segment of three events x (8-bit, 16-bit) parameters behind a 5-byte prefix, for direct calls of the segment readers
+    import fcsgen
+    return fcsgen.write_tmp(b'HELLO' + bytes([7, 1, 2, 9, 3, 4, 255, 255, 255]) + b'/k1/v1/k2/v2/', name='c13_segment_%d.bin' % os.getpid())
+
+
 def build_args(s, rng, floaty):
     names = list(s.channels)
     N = s.shape[0]
@@ -192,6 +202,8 @@ def build_args(s, rng, floaty):
         'beads2': b, 'fl_rfi': np.array([50., 300., 900., 2500.]), 'fl_mef': np.array([700., 4000., 13000., 36000.]),
         'beads': s, 'mef_values': [[0., 700., 4000., 13000.], [None, 800., 5000., 21000.]], 'mef_channels': [names[2], names[1]],
         'clustering_fxn': (lambda data, n, **kw: (np.arange(data.shape[0]) * n) // data.shape[0]), 'cparams': {}, 'sparams': {}, 'selparams': {'scale': 'linear'},
+        # caller-owned containers handed to the segment readers: the declared ranges need more bits than the 8-bit parameter is wide
+        'seg_path': _segment_file(), 'seg_widths': [8, 16], 'seg_ranges': [1024., 65536.], 'seg_ranges_arr': np.array([1024., 65536.]),
         'fparams': {}, 'dparams': {'mode': 'scatter', 'bins': [8, 8]}, 'hparams': [{'bins': 8}, {'bins': 8}],
     }
 
